@@ -336,30 +336,40 @@ def option_ranges(ctx):
     repo = ctx.repo
     fv = repo.func(OPTIONS, "SolverOptions.validate")
     rg = [(n, gs) for n, gs in raise_guards(fv) if gs and not any(isinstance(x, ast.Try) for x in ast.walk(gs[0][0]))]
-    tests = [(gs[0][0].test, gs[0][1]) for n, gs in rg if len(gs) == 1]
+    from ..dataflow import expand
+    # the rejection condition of a raise is the conjunction of its guards, read through temporaries (`m = self.x; if not 0 < m < 1`)
+    conds = []
+    for n, gs in rg:
+        if all(isinstance(g, ast.If) for g, _ in gs):
+            conds.append([(expand(fv.node, g.test), br) for g, br in gs])
     for field, (acc, rej) in RANGES.items():
-        rel = [(t, br) for t, br in tests if any(isinstance(x, ast.Attribute) and x.attr == field for x in ast.walk(t))]
+        rel = [c for c in conds if any(isinstance(x, ast.Attribute) and x.attr == field for t, _ in c for x in ast.walk(t))]
         ok = len(rel) == 1
-        det = {"guards": [norm(t) for t, _ in rel]}
+        det = {"guards": [[norm(t) for t, _ in c] for c in rel]}
+        if not rel:
+            mentions = [nn for nn in own_nodes(fv.node) if isinstance(nn, ast.Attribute) and nn.attr == field]
+            if mentions:
+                raise AnalysisError(f"SolverOptions.validate mentions `{field}` but no raise is guarded by a test on it that this rule can read")
         if ok:
-            t, br = rel[0]
+            def rejects(v, c=rel[0]):
+                return all(bool(pyeval(t, {field: v})) == (br == "true") for t, br in c)
             bad_acc, bad_rej = [], []
             for v in acc:
                 try:
-                    r = bool(pyeval(t, {field: v}))
+                    r = rejects(v)
                 except Exception as e:
-                    raise AnalysisError(f"cannot evaluate `{norm(t)}` for {field}={v!r}: {e}")
-                if r == (br == "true"):
+                    raise AnalysisError(f"cannot evaluate the guard of {field} for {field}={v!r}: {e}")
+                if r:
                     bad_acc.append(v)
             for v in rej:
-                r = bool(pyeval(t, {field: v}))
-                if r != (br == "true"):
+                if not rejects(v):
                     bad_rej.append(v)
             det.update({"wrongly_rejected": [repr(x) for x in bad_acc], "wrongly_accepted": [repr(x) for x in bad_rej]})
             ok = not bad_acc and not bad_rej
         ctx.ob("R19.3", f"SolverOptions.{field}: documented range enforced at its end points", ok, detail=det, where=fv.fq,
                construct=f"range guard of {field}", loc=loc(fv, fv.node), message=f"range guard of {field}: {det}",
                consequence=f"an out-of-range {field} is accepted (or a legal boundary value rejected)")
+    tests = [c[0] for c in conds if len(c) == 1]
     rel = [(t, br) for t, br in tests if norm(t).replace(" ", "") in ("self.dt_init>self.dt_max", "self.dt_max<self.dt_init")]
     ctx.ob("R19.3", "dt_init <= dt_max enforced (equality accepted)", len(rel) == 1, detail=[norm(t) for t, _ in tests][:3], where=fv.fq,
            construct="dt_init <= dt_max", message="no dt_init > dt_max guard", consequence="an initial step above the cap is accepted")
